@@ -13,10 +13,13 @@ CONSTANTS
   FailSets <- MCFailSets
   TrialReset = TRUE
   FinalReset = TRUE
+  CompRebases = FALSE
+  MaxUser = 0
 INVARIANT TypeOK
 INVARIANT RowsTrue
 INVARIANT NominalReproduced
 INVARIANT Reproducible
 INVARIANT EndStateNominal
+INVARIANT HandlesNominal
 PROPERTY ResetRestores
 CHECK_DEADLOCK FALSE
